@@ -478,6 +478,9 @@ pub fn gen(prop: &str, rng: &mut Rng, quick: bool, st: &mut Stats) -> Option<Vec
                     arch.push(bytes);
                 }
             }
+            // archives holding tile 0 (first in the list, so that the range ..0 meets one)
+            arch.insert(0, write_plain("sync", "c:none;a:0:aabb;a:1:ccdd;a:2:aabb;a:9:0102030405").expect("write"));
+            arch.insert(1, write_plain("async", "a:0:aabbcc;a:5:ccdd").expect("write"));
             for (k, b) in arch.iter().enumerate() {
                 let v = match spec::parse(b, false) {
                     Ok(v) => v,
@@ -486,7 +489,15 @@ pub fn gen(prop: &str, rng: &mut Rng, quick: bool, st: &mut Stats) -> Option<Vec
                 let mut pts: Vec<u64> = v.tile_entries.iter().take(3).map(|e| e.id).collect();
                 pts.extend(v.root.iter().filter(|e| e.run == 0).take(3).map(|e| e.id));
                 pts.push(0);
-                for (j, rg) in [FULL, (Bound::Included(pts[0]), Bound::Unbounded), (Bound::Unbounded, Bound::Excluded(*pts.last().unwrap_or(&0) + 2)), (Bound::Included(pts[pts.len() / 2]), Bound::Included(pts[pts.len() / 2] + 50))].iter().enumerate() {
+                let mut ranges = vec![FULL, (Bound::Included(pts[0]), Bound::Unbounded), (Bound::Unbounded, Bound::Excluded(*pts.last().unwrap_or(&0) + 2)), (Bound::Included(pts[pts.len() / 2]), Bound::Included(pts[pts.len() / 2] + 50))];
+                // empty and inverted ranges, and ranges ending just before the first tile
+                match k % 4 {
+                    0 => ranges.push((Bound::Unbounded, Bound::Excluded(0))),
+                    1 => ranges.push((Bound::Included(0), Bound::Excluded(0))),
+                    2 => ranges.push((Bound::Unbounded, Bound::Excluded(pts[0]))),
+                    _ => ranges.push((Bound::Included(pts[0] + 1), Bound::Excluded(pts[0]))),
+                }
+                for (j, rg) in ranges.iter().enumerate() {
                     let mode = if (k + j) % 2 == 0 { "sync" } else { "async" };
                     c.push(format!("chk_lazy {mode} {} {}", range_tok(rg), hex_bytes(b)));
                     // without a codec the bytes read are exactly the windows the model requests
